@@ -59,3 +59,39 @@ fn c06_from_root_is_the_reverse_chain_bounded() {
     while n > 0 { n -= 1; assert!(it.next().map(|g| g.id().into_u64()) == Some(chain[n]), "C06.from_root.root_to_leaf_order"); }
     assert!(it.next().is_none(), "C06.from_root.nothing_else");
 }
+
+// ---------- deep scopes: Scope::from_root buffers the walk in a SmallVec with 16 inline slots before reversing it; a
+// linear chain 1 <- 2 <- ... <- n with n up to 20 crosses that threshold
+pub(crate) struct VChain { n: u64 }
+impl<'a> VLookupSpan<'a> for VChain {
+    type Data = VData;
+    fn span_data(&'a self, id: &vspan::Id) -> Option<VData> {
+        let k = id.into_u64();
+        if k == 0 || k > self.n { return None; }
+        Some(VData::__chain(k))
+    }
+}
+impl VCollect for VChain {
+    fn enabled(&self, _: &VMetadata<'_>) -> bool { true }
+    fn new_span(&self, _: &vspan::Attributes<'_>) -> vspan::Id { vspan::Id::from_u64(1) }
+    fn record(&self, _: &vspan::Id, _: &vspan::Record<'_>) {}
+    fn record_follows_from(&self, _: &vspan::Id, _: &vspan::Id) {}
+    fn event(&self, _: &VEvent<'_>) {}
+    fn enter(&self, _: &vspan::Id) {}
+    fn exit(&self, _: &vspan::Id) {}
+    fn current_span(&self) -> vspan::Current { vspan::Current::none() }
+}
+// BOUND: the linear chain of exactly 17 spans (one more than the 16-slot inline buffer); symbolic lengths 15..=20 did not finish in 900 s
+#[kani::proof]
+#[kani::unwind(20)]
+#[kani::stub(core::fmt::Formatter::pad, pad_stub)]
+fn c06_from_root_keeps_every_ancestor_of_a_deep_scope_bounded() {
+    let n: u64 = 17;
+    let root = VChain { n };
+    let cx = Context::new(&root);
+    let s = cx.span(&span::Id::from_u64(n)).unwrap();
+    let mut it = s.scope().from_root();
+    let mut want = 1u64;
+    while want <= n { assert!(it.next().map(|g| g.id().into_u64()) == Some(want), "C06.from_root.deep_scope.every_ancestor_root_first"); want += 1; }
+    assert!(it.next().is_none(), "C06.from_root.deep_scope.nothing_else");
+}
